@@ -70,6 +70,28 @@ static Box gen_box(vfh::Rng &r, int kind) {
   return B;
 }
 
+// a box related to the previous one: the same cell sheared at constant volume (same diagonal, new tilts), the diagonal
+// permuted, or edges scaled by powers of two at constant volume - consecutive boxes then agree in volume (bit for bit)
+// or in single elements although their heights differ, as in a sheared or constant-volume trajectory
+static Box related_box(vfh::Rng &r, const Box &P, int kind) {
+  Box B;
+  B.kind = kind;
+  B.m.setZero();
+  double ax = P.m(0, 0), by = P.m(1, 1), cz = P.m(2, 2);
+  int how = (int)r.range(0, 3);
+  if (how == 1) { double t = ax; ax = by; by = cz; cz = t; }
+  else if (how == 2) { ax *= 2; by *= 0.5; }
+  else if (how == 3) { cz *= 4; ax *= 0.5; by *= 0.5; }
+  B.m(0, 0) = ax; B.m(1, 1) = by; B.m(2, 2) = cz;
+  if (kind == 2) {
+    auto tilt = [&](double lim) { int c = (int)r.range(0, 5); return c == 0 ? 0.5 * lim : c == 1 ? 0.0 : r.uni(-0.5, 0.5) * lim; };
+    B.m(0, 1) = tilt(ax); B.m(0, 2) = tilt(ax); B.m(1, 2) = tilt(by);
+    if (B.m(0, 1) == 0 && B.m(0, 2) == 0 && B.m(1, 2) == 0) B.m(1, 2) = 0.4 * by;
+  }
+  B.derive();
+  return B;
+}
+
 static Eigen::Vector3d gen_point(vfh::Rng &r, const Box &B, long &maximg) {
   if (B.kind == 0) {
     double s = r.logu(0.1, 1e4);
@@ -130,7 +152,12 @@ int main(int argc, char **argv) {
 
   for (long ib = 0; ib < nboxes; ++ib) {
     int kind = (ib % 10 == 0) ? 0 : (ib % 2 ? 1 : 2);
-    Box B = gen_box(rng, kind);
+    static Box prev;
+    static bool have_prev = false;
+    bool rel = have_prev && kind != 0 && rng.coin(0.3);
+    Box B = rel ? related_box(rng, prev, kind) : gen_box(rng, kind);
+    if (rel) R.counter("boxes_related_to_the_previous_box_same_volume");
+    if (kind != 0) { prev = B; have_prev = true; }
     int explicit_mode = (int)rng.range(0, 3);  // 0 auto; 1 explicit same; 2 diagonal box as explicit triclinic; 3 auto
     // histories: half of the boxes are set on a Topology that already carried other boxes (as a trajectory reader does
     // frame after frame: orthorhombic -> triclinic -> open -> ...), the others on a fresh object
